@@ -33,11 +33,35 @@ class Node:
     group: tuple | None = None     # (first_node_idx, position) for multi-output ops
     has_saved: bool = False        # the torch op saves tensors for backward
     desc: str = ""
+    layout: tuple | None = None    # leaf memory layout: ("perm", dims) = strides of a permuted tensor, ("step", k) = every
+    #                                k-th element of a larger buffer; None = contiguous.  Values / shape are logical.
+
+
+BIG = 2 ** 25 + 1      # odd, 26 bits: k*BIG is not representable in single precision for most small k
+
+
+def realise_leaf(nd: Node, dtype):
+    t = torch.tensor(nd.vals, dtype=dtype).reshape(nd.shape).clone()
+    if nd.layout is not None and t.numel() > 0:
+        kind, arg = nd.layout
+        if kind == "perm":
+            inv = [0] * len(arg)
+            for i, a in enumerate(arg):
+                inv[a] = i
+            t = t.permute(*arg).contiguous().permute(*inv)          # same logical tensor, permuted strides
+        else:
+            buf = torch.zeros(t.numel() * arg, dtype=dtype)
+            buf[::arg] = t.reshape(-1)
+            t = buf[::arg].reshape(nd.shape) if len(nd.shape) <= 1 else buf[::arg].view(nd.shape)
+    assert tuple(t.shape) == tuple(nd.shape)
+    return t
 
 
 class Program:
     def __init__(self):
         self.nodes: list[Node] = []
+        self.big = False           # contains a *BIG op: exact in double precision only
+        self.casts = False         # contains a dtype cast (f32 <-> f64): results are exact in both (small integers)
 
     # ---------------------------------------------------------------- realisation in torch
     def build(self, dtype=torch.float64):
@@ -45,7 +69,7 @@ class Program:
         cache = {}
         for i, nd in enumerate(self.nodes):
             if nd.kind == "leaf":
-                t = torch.tensor(nd.vals, dtype=dtype).reshape(nd.shape).clone()
+                t = realise_leaf(nd, dtype)
                 t.requires_grad_(nd.rg)
             elif nd.kind == "aff":
                 if nd.group is not None:
@@ -79,7 +103,8 @@ class Program:
         return out
 
     def describe(self):
-        return [f"{i}:{nd.kind}{list(nd.shape)}{'' if nd.rg else '!rg'} {nd.desc}" for i, nd in enumerate(self.nodes)]
+        return [f"{i}:{nd.kind}{list(nd.shape)}{'' if nd.rg else '!rg'} {nd.desc}"
+                + (f" layout={nd.layout}" if nd.layout else "") for i, nd in enumerate(self.nodes)]
 
     def requires_grad(self, i):
         nd = self.nodes[i]
@@ -122,8 +147,8 @@ class Program:
         return out
 
     # ---------------------------------------------------------------- construction helpers
-    def add_leaf(self, shape, vals, rg=True):
-        self.nodes.append(Node("leaf", tuple(shape), rg, list(vals), desc="leaf"))
+    def add_leaf(self, shape, vals, rg=True, layout=None):
+        self.nodes.append(Node("leaf", tuple(shape), rg, list(vals), desc="leaf", layout=layout))
         return len(self.nodes) - 1
 
     def add_mul(self, a, b):
@@ -186,6 +211,24 @@ def _factorizations(n):
     return res
 
 
+def random_layout(rng, shape, p=0.25):
+    """a non-contiguous memory layout for a leaf of this shape (None most of the time)"""
+    if numel(shape) < 2 or rng.random() >= p:
+        return None
+    big_dims = [d for d in shape if d > 1]
+    if len(shape) >= 2 and len(big_dims) >= 2 and rng.random() < 0.7:
+        for _ in range(10):
+            perm = list(range(len(shape)))
+            rng.shuffle(perm)
+            if perm != sorted(perm):
+                return ("perm", tuple(perm))
+    return ("step", rng.choice([2, 3]))
+
+
+def other_dtype(t):
+    return torch.float32 if t.dtype == torch.float64 else torch.float64
+
+
 def random_unary(rng, P: Program, s: int):
     """append a random single-source affine op on node s; returns new node indices"""
     sh = P.nodes[s].shape
@@ -197,6 +240,9 @@ def random_unary(rng, P: Program, s: int):
         choices += ["permute", "sumkeep"]
     if n >= 2 and d >= 1:
         choices += ["split", "unbind"]
+    if not P.big and rng.random() < 0.06:
+        P.casts = True            # mixed precision: the result lives in the other floating dtype than its source
+        return P.add_aff(lambda x: x[0].to(other_dtype(x[0])), [s], f"n{s}.to(other float dtype)")
     op = rng.choice(choices)
     if op == "reshape":
         tgt = rng.choice(_factorizations(n))
@@ -275,7 +321,7 @@ def random_binary(rng, P: Program, a: int, b: int):
         W1 = [[rng.choice([-1, 0, 1, 2]) for _ in range(na)] for _ in range(r)]
         W2 = [[rng.choice([-2, 0, 1]) for _ in range(nb)] for _ in range(r)]
         return P.add_aff(lambda x, W1=W1, W2=W2: torch.tensor(W1, dtype=x[0].dtype) @ x[0].reshape(-1)
-                         + torch.tensor(W2, dtype=x[0].dtype) @ x[1].reshape(-1), [a, b],
+                         + torch.tensor(W2, dtype=x[1].dtype) @ x[1].reshape(-1), [a, b],
                          f"W1@n{a}+W2@n{b}", has_saved=True)
     if op == "add":
         return P.add_aff(lambda x: x[0] + x[1].reshape(x[0].shape), [a, b], f"n{a}+n{b}")
@@ -300,7 +346,7 @@ def random_program(rng, n_leaves=None, n_ops=None, p_norg=0.15, max_numel=8, max
         for _ in range(nl):
             sh = rng.choice(SHAPES)
             vals = [rng.choice([-3, -2, -1, 1, 2, 3, 0]) for _ in range(numel(sh))]
-            P.add_leaf(sh, vals, rg=rng.random() >= p_norg)
+            P.add_leaf(sh, vals, rg=rng.random() >= p_norg, layout=random_layout(rng, sh))
         if not any(P.nodes[i].rg for i in P.leaves()):
             P.nodes[0].rg = True
         k = n_ops or rng.choice([1, 2, 3, 4, 5, 6, 8])
@@ -324,6 +370,12 @@ def random_program(rng, n_leaves=None, n_ops=None, p_norg=0.15, max_numel=8, max
         if all(float(t.detach().abs().max()) <= max_abs for t in ts if t.numel() > 0) and \
                 all(numel(nd.shape) <= 3 * max_numel for nd in P.nodes) and \
                 any(P.requires_grad(i) and P.nodes[i].kind != "leaf" for i in range(len(P.nodes))):
+            if not P.casts and rng.random() < 0.12:
+                # one large odd factor: Jacobian entries k*(2^25+1) are exact in double precision but not in single, so a
+                # silent round trip through float32 anywhere in the pipeline becomes visible
+                s = rng.choice(differentiable_nonleaves(P))
+                P.add_aff(lambda x: x[0] * BIG, [s], f"n{s}*(2^25+1)")
+                P.big = True
             return P
     raise RuntimeError("could not generate a bounded program")
 
@@ -376,6 +428,7 @@ class MTL:
         self.features: list = []
         self.task_leaves: list = []     # per task, leaves (requiring grad) its loss uses around the features
         self.losses: list = []
+        self.masked_tasks: list = []    # tasks whose loss has an exactly zero gradient w.r.t. the features
 
     def unused_features(self):
         """features no loss depends on (mtl_backward still differentiates them, with zero cotangents)"""
@@ -421,7 +474,7 @@ def random_mtl(rng, heads_disjoint=True, max_abs=300):
         for _ in range(rng.choice([1, 2, 2, 3])):
             sh = rng.choice(SHAPES)
             M.shared_leaves.append(P.add_leaf(sh, [rng.choice([-2, -1, 1, 2, 3]) for _ in range(numel(sh))],
-                                              rg=rng.random() >= 0.1))
+                                              rg=rng.random() >= 0.1, layout=random_layout(rng, sh)))
         if not any(P.nodes[i].rg for i in M.shared_leaves):
             P.nodes[M.shared_leaves[0]].rg = True
         pool = list(M.shared_leaves)
@@ -439,10 +492,15 @@ def random_mtl(rng, heads_disjoint=True, max_abs=300):
             for _ in range(rng.choice([0, 1, 1, 2])):
                 sh = rng.choice(SHAPES[:8])
                 own.append(P.add_leaf(sh, [rng.choice([-2, -1, 1, 2]) for _ in range(numel(sh))],
-                                      rg=rng.random() >= 0.1))
+                                      rg=rng.random() >= 0.1, layout=random_layout(rng, sh)))
             if prev_leaves and rng.random() < 0.3:
                 own.append(rng.choice(prev_leaves))           # a parameter shared by two tasks
             used_feats = [f for f in M.features if rng.random() < 0.7] or [rng.choice(M.features)]
+            if rng.random() < 0.12:
+                # a masked task: its loss is connected to the features through a zero factor, so its gradient with
+                # respect to them is exactly zero (the sweep still has to be made)
+                used_feats = [P.add_aff(lambda x: x[0] * 0, [f], f"n{f}*0")[0] for f in used_feats]
+                M.masked_tasks.append(t)
             hp = list(used_feats) + own
             if not heads_disjoint and rng.random() < 0.3 and M.shared_leaves:
                 hp.append(rng.choice(M.shared_leaves))       # reaches a shared leaf around the features
@@ -465,6 +523,10 @@ def random_mtl(rng, heads_disjoint=True, max_abs=300):
             continue
         ts = P.build(torch.float64)
         if all(float(t.detach().abs().max()) <= max_abs for t in ts if t.numel() > 0):
+            if not P.casts and rng.random() < 0.15:
+                t = rng.randrange(T)
+                M.losses[t] = P.add_aff(lambda x: x[0] * BIG, [M.losses[t]], f"n{M.losses[t]}*(2^25+1)")[0]
+                P.big = True
             return M
     raise RuntimeError("could not generate a bounded mtl program")
 
